@@ -179,6 +179,27 @@ func ruleRootCauseLoop(rule string) RuleFn {
 				asInLoop = true
 			}
 		}
+		// (c) whatever a constructor returned is the root cause, even if it is itself a dig error (of another container)
+		cf := an.BoolEdges(fn, func(v ssa.Value) bool { return taOK(v, "errConstructorFailed") }, true)
+		okCF := len(cf) > 0
+		for _, e := range cf {
+			first := e.From.Succs[e.Succ].Instrs[0]
+			isReasonRet := func(i ssa.Instruction) bool {
+				r, ok := i.(*ssa.Return)
+				return ok && len(r.Results) == 1 && strings.HasSuffix(an.Norm(r.Results[0]), ".Reason")
+			}
+			hit, _ := an.PathTo(fn, first, isReasonRet, an.NewGates().AddInstr(func() []ssa.Instruction {
+				var out []ssa.Instruction
+				for _, u := range uw {
+					out = append(out, u.(ssa.Instruction))
+				}
+				return out
+			}()...))
+			if hit == nil && !isReasonRet(first) {
+				okCF = false
+			}
+		}
+		c.Check(okCF, rule, "RootCause returns what the constructor returned", "errConstructorFailed -> its Reason, without unwrapping further", "RootCause unwraps below an errConstructorFailed link: a constructor that returns a dig error as is (the failure of a nested container) gets that error taken apart, and RootCause returns something the constructor never returned", nil, nil)
 		c.Check(len(as) >= 1 && !asInLoop, rule, "RootCause stops at the first link that is not a dig.Error", "errors.As once, then type assertions link by link", "RootCause calls errors.As on every hop, which looks through links dig did not create: for a constructor that returns fmt.Errorf(\"...: %w\", errOfNestedInvoke) it returns the nested dig error (or its cause), not the error the constructor returned - RootCause/errors.As(dig.Error) then classify a user failure as a dig failure", nil, nil)
 	}
 }
@@ -921,6 +942,56 @@ func ruleCtorReentry(rule string) RuleFn {
 			good, why = false, "the marker is not restored by a deferred function (a failed or panicking build would leave the constructor unusable)"
 		}
 		c.Check(good, rule, cons, "building = true before BuildList; tested at entry; restored by defer", why, mark[0], nil)
+		// while the user's function itself runs there is no legitimate re-entry at all: a flag set around the
+		// invoker call is tested at entry without any exception
+		cons3 := "constructorNode.Call rejects every re-entry while the constructor function itself is running"
+		var runMark []ssa.Instruction
+		for _, st := range an.StoresToField(fn, "constructorNode", "running") {
+			if an.Norm(st.Val) == "true" {
+				runMark = append(runMark, st)
+			}
+		}
+		okRun, whyRun := len(runMark) > 0, "no flag is set around the call of the user's function: a constructor whose body asks the container (a nested Invoke) for something whose decorator consumes the constructor's own result is entered a second time while it runs, both executions succeed and two instances of the key are handed out"
+		if okRun {
+			for _, k := range an.Sinks(fn, "invokerFn") {
+				if hit, _ := an.PathTo(fn, nil, an.IsInstr(k.(ssa.Instruction)), an.NewGates().AddInstr(runMark...)); hit != nil {
+					okRun, whyRun = false, "the user's function can be called without the running flag set"
+				}
+			}
+			runE := an.BoolEdges(fn, func(v ssa.Value) bool { return an.Norm(v) == "p:n.running" }, true)
+			if len(runE) == 0 {
+				okRun, whyRun = false, "the running flag is never tested"
+			}
+			for _, e := range runE {
+				first := e.From.Succs[e.Succ].Instrs[0]
+				proceed := func(i ssa.Instruction) bool {
+					if r, ok := i.(*ssa.Return); ok && !isErrorExit(r) {
+						return true
+					}
+					for _, b := range builds {
+						if i == ssa.Instruction(b) {
+							return true
+						}
+					}
+					return false
+				}
+				if hit, _ := an.PathTo(fn, first, proceed, nil); hit != nil || proceed(first) {
+					okRun, whyRun = false, "a call that finds the constructor function running can still proceed"
+				}
+			}
+			restoredRun := false
+			for _, cl := range fn.AnonFuncs {
+				for _, st := range an.StoresToField(cl, "constructorNode", "running") {
+					if an.Norm(st.Val) == "false" {
+						restoredRun = true
+					}
+				}
+			}
+			if okRun && !restoredRun {
+				okRun, whyRun = false, "the running flag is not cleared by a deferred function"
+			}
+		}
+		c.Check(okRun, rule, cons3, "running = true around the invoker call; tested unconditionally at entry; cleared by defer", whyRun, mark[0], nil)
 		// the decorator epoch: the one legitimate re-entry is told apart by comparing the number of decorator starts
 		// recorded with the marker against the current one - for EQUALITY - and every decorator start is counted
 		// before the decorator builds its arguments
@@ -995,6 +1066,18 @@ func ruleCtorReentry(rule string) RuleFn {
 					goodInc = false
 				}
 			}
+			// the count is of decorators that are RUNNING: it is taken back when the decorator returns. A counter
+			// that only grows lets a decorator that fails and is started again on every lap of a cycle (through an
+			// optional parameter) keep the re-entry test from ever firing
+			undone := false
+			for _, cl := range dn.AnonFuncs {
+				for _, st := range an.StoresToField(cl, "Scope", "decoratorsStarted") {
+					if v := an.Norm(st.Val); strings.Contains(v, "decoratorsStarted - 1") {
+						undone = true
+					}
+				}
+			}
+			c.Check(undone, rule, "decoratorNode.Call takes its count back when it returns", "deferred decoratorsStarted--", "the decorator-start counter only grows: in a cycle that runs through the views of two sibling scopes, one optional parameter whose constructor's dependency has a decorator that fails (a missing dependency) restarts that decorator on every lap, the counter changes on every lap, the re-entry guard of constructorNode.Call never sees two equal counts, and Invoke recurses until the stack overflows", nil, nil)
 			c.Check(goodInc, rule, "decoratorNode.Call counts its start before it builds its arguments", "rootScope().decoratorsStarted++ dominates BuildList", "a decorator can build its arguments without having counted its start: the constructor it re-enters legitimately (it decorates one of that constructor's dependencies and consumes its result) sees an unchanged counter and reports a cycle", nil, nil)
 		}
 	}
